@@ -21,6 +21,10 @@ type replayFile struct {
 	Case *Case  `json:"case"`
 	// Mode: "" CreateVP + Match, "array" CreateVPArray + merged submission, "msr" / "msr-apply" MatchSubmissionRequirement
 	Mode string `json:"mode,omitempty"`
+	// JP: a case of the engines stream (Mode "jpath")
+	JP *JCase `json:"jp,omitempty"`
+	// LM: a case of the limit stream (Mode "limit")
+	LM *LCase `json:"lm,omitempty"`
 }
 
 func descByID(p Defn, id int) (Desc, bool) {
@@ -804,10 +808,22 @@ func main() {
 			Case *replayFile `json:"case"`
 		}
 
-		if json.Unmarshal(b, &wrapped) == nil && wrapped.Case != nil && wrapped.Case.Case != nil {
+		if json.Unmarshal(b, &wrapped) == nil && wrapped.Case != nil && (wrapped.Case.Case != nil || wrapped.Case.JP != nil || wrapped.Case.LM != nil) {
 			rf = *wrapped.Case
 		} else {
 			must(json.Unmarshal(b, &rf))
+		}
+
+		if rf.JP != nil {
+			r.doJPath("replay", *rf.JP, true)
+
+			return
+		}
+
+		if rf.LM != nil {
+			r.doLimit("replay", *rf.LM, true)
+
+			return
 		}
 
 		if rf.Case == nil {
@@ -842,7 +858,11 @@ func main() {
 			var rf replayFile
 			must(json.Unmarshal(b, &rf))
 
-			if rf.Case != nil {
+			if rf.JP != nil {
+				r.doJPath("corpus:"+filepath.Base(f), *rf.JP, true)
+			} else if rf.LM != nil {
+				r.doLimit("corpus:"+filepath.Base(f), *rf.LM, true)
+			} else if rf.Case != nil {
 				r.do("corpus:"+filepath.Base(f), *rf.Case, true)
 			}
 		}
@@ -851,6 +871,14 @@ func main() {
 	rng := hx.NewRng(a.Seed)
 	thorough := a.Tier == "thorough"
 
+	genEngines(r, rng.Fork(9), thorough)
+	genLimit(r, rng.Fork(10), thorough)
+
+	if os.Getenv("C20_ONLY") == "engines" { // development aid: only the engines stream
+		return
+	}
+
+	genDeep(r, rng.Fork(11), thorough)
 	genRequirements(r, rng.Fork(1), thorough)
 	genConstraints(r, rng.Fork(2), thorough)
 	genFormats(r, rng.Fork(3), thorough)
